@@ -1,16 +1,120 @@
-(* Simd/Proofs.v — C15: what the vector kernels read, and in which order they add (for every length and all values). *)
+(* Simd/Proofs.v — C15: what the vector kernels read and in which order they add, for every length and all values. *)
 From Coq Require Import ZArith List Bool Arith Lia.
 From Flocq Require Import IEEE754.BinarySingleNaN IEEE754.Binary IEEE754.Bits.
 From Verif Require Import Simd.Model.
 Import ListNotations.
+Local Open Scope nat_scope.
 
-(* ---- reads: the body in groups of w, then the tail: every index below the length exactly once, nothing else ---- *)
-Lemma seq_app_add a n m : seq a (n + m) = seq a n ++ seq (a + n) m.
-Proof. apply seq_app. Qed.
-Lemma body_reads_seq w : forall c, flat_map (fun g => map (fun j => g * w + j) (seq 0 w)) (seq 0 c) = seq 0 (c * w).
+(* ---- reads: the body in groups of w, then the tail: every index below the length exactly once, in order ---- *)
+Lemma seq_shift_by a w : map (fun j => a + j) (seq 0 w) = seq a w.
+Proof.
+  revert a. induction w as [|w IH]; intros a; auto. simpl. rewrite Nat.add_0_r. f_equal.
+  rewrite <- seq_shift, map_map. rewrite <- (IH (S a)). apply map_ext. intros j. lia.
+Qed.
+Lemma body_reads_seq w c : flat_map (fun g => map (fun j => g * w + j) (seq 0 w)) (seq 0 c) = seq 0 (c * w).
 Proof.
   induction c as [|c IH]; auto.
-  rewrite seq_S, flat_map_app, IH. simpl. rewrite app_nil_r.
-  replace (S c * w) with (c * w + w) by lia. rewrite seq_app_add. f_equal.
-  rewrite <- seq_shift_add. reflexivity.
-Abort.
+  rewrite seq_S, flat_map_app, IH. simpl. rewrite app_nil_r, seq_shift_by.
+  replace (w + c * w) with (c * w + w) by lia. rewrite seq_app. reflexivity.
+Qed.
+Theorem reads_exact w n : 0 < w -> body_reads w n ++ tail_reads w n = seq 0 n.
+Proof.
+  intros Hw. unfold body_reads, tail_reads, body_len. rewrite body_reads_seq.
+  pose proof (Nat.div_mod n w ltac:(lia)) as D. pose proof (Nat.mod_upper_bound n w ltac:(lia)) as M.
+  assert (E : n = n / w * w + (n - n / w * w)) by lia. pose proof (seq_app (n / w * w) (n - n / w * w) 0) as SA. simpl in SA. rewrite <- SA, <- E. reflexivity.
+Qed.
+Corollary reads_in_bounds w n i : 0 < w -> In i (body_reads w n ++ tail_reads w n) -> i < n.
+Proof. intros Hw H. rewrite reads_exact in H by auto. apply in_seq in H. lia. Qed.
+Corollary reads_once w n : 0 < w -> NoDup (body_reads w n ++ tail_reads w n).
+Proof. intros Hw. rewrite reads_exact by auto. apply seq_NoDup. Qed.
+
+(* ---- order of the additions: lane j of the body is the left-to-right sum of the j-th element of every group ---- *)
+Lemma lanes_step_length acc c : length c = length acc -> length (lanes_step acc c) = length acc.
+Proof. intros H. unfold lanes_step. rewrite map_length, combine_length. lia. Qed.
+Lemma lanes_step_nth acc c j : j < length acc -> length c = length acc ->
+  nth j (lanes_step acc c) fzero = fadd (nth j acc fzero) (nth j c fzero).
+Proof.
+  intros Hj Hl. unfold lanes_step.
+  rewrite (nth_indep _ fzero (fadd (fst (fzero, fzero)) (snd (fzero, fzero)))) by (rewrite map_length, combine_length; lia).
+  rewrite (map_nth (fun p => fadd (fst p) (snd p)) (combine acc c) (fzero, fzero)). rewrite combine_nth by auto. reflexivity.
+Qed.
+Lemma lanes_fold_nth j : forall (cs : list (list f32)) acc, j < length acc -> Forall (fun c => length c = length acc) cs ->
+  nth j (fold_left lanes_step cs acc) fzero = fold_left fadd (map (fun c => nth j c fzero) cs) (nth j acc fzero).
+Proof.
+  induction cs as [|c r IH]; intros acc Hj F; simpl; auto. inversion F; subst.
+  rewrite IH.
+  - rewrite lanes_step_nth by auto. reflexivity.
+  - rewrite lanes_step_length; auto.
+  - rewrite lanes_step_length by auto. auto.
+Qed.
+Lemma chunks_lengths {A} w : forall fuel (l : list A), Forall (fun c => length c = w) (chunks w fuel l).
+Proof.
+  induction fuel as [|f IH]; intros l; simpl; auto. destruct (Nat.leb_spec w (length l)); auto.
+  constructor; auto. rewrite firstn_length. lia.
+Qed.
+Theorem lane_is_sequential w ts j : j < w ->
+  nth j (lanes w ts) fzero =
+  sum_seq (map (fun c => nth j c fzero) (chunks w (length ts) (firstn (body_len w (length ts)) ts))) fzero.
+Proof.
+  intros Hj. unfold lanes, sum_seq. rewrite lanes_fold_nth.
+  - rewrite nth_repeat. reflexivity.
+  - rewrite repeat_length. auto.
+  - rewrite repeat_length. apply chunks_lengths.
+Qed.
+
+(* ---- below one group the kernels are the portable loop, bit for bit (every value, NaN and infinities included) ---- *)
+Lemma fadd_zero_zero : fadd fzero fzero = fzero.
+Proof. vm_compute. reflexivity. Qed.
+Lemma short_body w (a : list f32) : length a < w -> body_len w (length a) = 0.
+Proof. intros H. unfold body_len. rewrite Nat.div_small by auto. reflexivity. Qed.
+Lemma short_kernel_sum8 fb ft a b : length a < 8 ->
+  kernel_sum 8 hsum8 fb ft a b = sum_seq (terms ft a b) fzero.
+Proof.
+  intros H. unfold kernel_sum. rewrite (short_body 8 a H). simpl firstn. simpl skipn. unfold vsum, terms at 1. simpl combine. simpl map.
+  unfold lanes. simpl. unfold hsum8. simpl. rewrite !fadd_zero_zero. reflexivity.
+Qed.
+Lemma short_kernel_sum4 fb ft a b : length a < 4 ->
+  kernel_sum 4 hsum4 fb ft a b = sum_seq (terms ft a b) fzero.
+Proof.
+  intros H. unfold kernel_sum. rewrite (short_body 4 a H). simpl firstn. simpl skipn. unfold vsum, terms at 1. simpl combine. simpl map.
+  unfold lanes. simpl. unfold hsum4. simpl. rewrite !fadd_zero_zero. reflexivity.
+Qed.
+Theorem avx_short_exact a b : length a < 8 ->
+  avx_euclid a b = native_euclid a b /\ avx_manhattan a b = native_manhattan a b.
+Proof.
+  intros H. unfold avx_euclid, avx_manhattan, vec_euclid, vec_manhattan, native_euclid, native_manhattan.
+  rewrite !short_kernel_sum8 by auto. auto.
+Qed.
+Theorem sse_short_exact al a b : length a < 4 ->
+  sse_euclid al a b = native_euclid a b /\ sse_manhattan al a b = native_manhattan a b.
+Proof.
+  intros H. unfold sse_euclid, sse_manhattan. destruct al; auto. unfold vec_euclid, vec_manhattan, native_euclid, native_manhattan.
+  rewrite !short_kernel_sum4 by auto. auto.
+Qed.
+(* on operands that are not 16-byte aligned the SSE implementation IS the portable one *)
+Theorem sse_unaligned_is_native a b :
+  sse_euclid false a b = native_euclid a b /\ sse_manhattan false a b = native_manhattan a b /\ sse_cosine false a b = native_cosine a b.
+Proof. repeat split. Qed.
+
+(* ---- where the kernels leave "up to rounding" (computed with Flocq's binary32) ---- *)
+Local Open Scope Z_scope.
+Definition fl (z : Z) := of_bits z.
+(* 2^-80 and 0: |d| = 2^-80 for the portable loop; sqrt(d*d) = sqrt(0) = 0 in the vector body (d*d underflows) *)
+Theorem manhattan_underflow_refuted :
+  let a := repeat (fl 394264576) 8%nat in let b := repeat (fl 0) 8%nat in
+  bits (native_manhattan a b) = 419430400 /\ bits (avx_manhattan a b) = 0 /\ bits (sse_manhattan true a b) = 0.
+Proof. vm_compute. auto. Qed.
+(* 2^70 and 0: finite for the portable loop, +Inf in the vector body (d*d overflows) *)
+Theorem manhattan_overflow_refuted :
+  let a := repeat (fl 1652555776) 8%nat in let b := repeat (fl 0) 8%nat in
+  bits (native_manhattan a b) = 1677721600 /\ bits (avx_manhattan a b) = 2139095040 /\ bits (sse_manhattan true a b) = 2139095040.
+Proof. vm_compute. auto. Qed.
+(* cosine: the zero vector has no direction: NaN in every implementation; and norms whose product overflows *)
+Theorem cosine_zero_vector_refuted :
+  let z := repeat (fl 0) 8%nat in let v := repeat (fl 1065353216) 8%nat in
+  is_nan 24 128 (native_cosine z v) = true /\ is_nan 24 128 (avx_cosine z v) = true /\ is_nan 24 128 (sse_cosine true z v) = true.
+Proof. vm_compute. auto. Qed.
+Theorem cosine_overflow_refuted :
+  let v := repeat (fl 1518338048) 8%nat in     (* 2^54 in every component: |v|^2 = 2^111, |v|^2 |v|^2 = 2^222 overflows *)
+  bits (native_cosine v v) = 872415232 (* 2^-23 *) /\ bits (avx_cosine v v) = 1065353216 (* 1.0 *) /\ bits (sse_cosine true v v) = 1065353216.
+Proof. vm_compute. auto. Qed.
